@@ -50,6 +50,11 @@ func newBase(rule rule) Base {
 	}
 }
 
+// setComment sets the base fields from a raw inline comment
+func (r *Base) setComment(comment string) {
+	*r = newBase(rule{kv{comment: comment}})
+}
+
 func newBaseFromLog(log map[string]string) Base {
 	comment := ""
 	fileInherit, noNewPrivs, optional := false, false, false
